@@ -44,8 +44,9 @@ static const char* kSchemaTexts[] = {
     "[{\"a\":1},\"s\"]",                                        // whole value replaced by an array
     "{\"a\":\"new\",\"b\":{\"c\":\"long string value that needs its own buffer\"}}",
     "{\"a\":[1,",                                               // invalid text
+    "{\"b\":[[\"s\",{\"k\":[1,",                                     // invalid text that fails three levels inside containers it is building
 };
-static const int NSCHEMA = 4;
+static const int NSCHEMA = 5;
 
 static bool nonempty_obj(const ref::Value& v) { return v.k == ref::Obj && !v.o.empty(); }
 static ref::Value merge(const ref::Value& E, const ref::Value& T) {
@@ -409,7 +410,7 @@ int main(int argc, char** argv) {
 #endif
   hb::Explorer<DocSim> ex(R, "K_two_docs",
                           "BFS over histories of two documents with a ledger-tracking freeing allocator: menu of " + std::to_string(OP_COUNT) +
-                              " operations (Parse of 9 texts valid/invalid/deep/wide, ParseOnDemand, ParseSchema of 4 texts incl. repeated and invalid, document move-assign / move-construct / Swap, cross-document CopyFrom of the whole document and into a member, node mutations with owned strings / map / self-move, destroy and recreate at any point); after every transition: ledger without double/foreign free, each document's Dump() equals its model (copies independent), and when both documents are gone the ledger is empty and the heap is at its baseline",
+                              " operations (Parse of 9 texts valid/invalid/deep/wide, ParseOnDemand, ParseSchema of 5 texts incl. repeated and invalid (one failing deep inside new containers), document move-assign / move-construct / Swap, cross-document CopyFrom of the whole document and into a member, node mutations with owned strings / map / self-move, destroy and recreate at any point); after every transition: ledger without double/foreign free, each document's Dump() equals its model (copies independent), and when both documents are gone the ledger is empty and the heap is at its baseline",
                           depth);
   if (args.replay) return ex.replay(args.replay_idx);
   ex.run();
